@@ -1279,7 +1279,8 @@ class Analysis:
         # off-by-one: '<=' for '<', terminator after an exactly fitting payload).  A bound that is weaker
         # than that is far more often lost precision than a defect and is reported as undecided.
         one = width if width else 1
-        if slack is not None and slack > one:
+        NEAR = 4                     # misses of up to a small header (type/length octets, two hex digits, a 16-bit field)
+        if slack is not None and slack > max(one, NEAR):
             self.obligations.append(dict(pos=pos, ln=ln, kind=rw, status="undecided", buf=label, what=what or key(node),
                                          detail="bound present but weaker than needed by %d bytes against %s" % (slack, label)))
             return
@@ -1298,7 +1299,7 @@ class Analysis:
                 if st.entails(need.scale(-1).plus(1)):           # need >= 1 always
                     why = "every execution reaching this access ends %d byte(s) past %s" % (slack, label)
                 else:
-                    why = self._flip_witness(st, need)
+                    why = self._flip_witness(st, need, slack)
             if why:
                 self.obligations.append(dict(pos=pos, ln=ln, kind=rw, status="alarm", buf=label, what=what or key(node),
                                              detail="address is only known to stay within %d byte(s) past the end of %s "
@@ -1311,8 +1312,9 @@ class Analysis:
             self.obligations.append(dict(pos=pos, ln=ln, kind=rw, status="undecided", buf=label, what=what or key(node),
                                          detail="no bound derivable (lower %s, upper %s) against %s" % (lo_ok, hi_ok, label)))
 
-    def _flip_witness(self, st, need):
-        """a comparison of the function that holds in st and, strengthened by one, makes `need <= 0` entailed"""
+    def _flip_witness(self, st, need, by=1):
+        """a comparison of the function that holds in st and, strengthened by `by` (the number of bytes the bound is short),
+        makes `need <= 0` entailed"""
         if getattr(self, "_cmp_cache", None) is None:
             self._cmp_cache = []
             for bid in self.fn.reachable_blocks():
@@ -1336,13 +1338,13 @@ class Analysis:
                 for k_ in (0, 1, 2, 3):
                     if st.entails(g.plus(k_)) and not st.entails(g.plus(k_ + 1)):
                         st2 = st.copy()
-                        st2.add(g.plus(k_ + 1))
+                        st2.add(g.plus(k_ + by))
                         if st2.entails(Lin({}, 1)):
                             break                   # the tightened comparison contradicts the state: no evidence
                         if not (set(g.t) & set(need.t)):
                             break                   # a comparison about other quantities
                         if st2.entails(need):
-                            return "the comparison at line %s, tightened by one, would make it safe" % n.get("ln")
+                            return "the comparison at line %s, tightened by %d, would make it safe" % (n.get("ln"), by)
                         break
         return None
 
